@@ -1,5 +1,5 @@
 // mkoverlay rewrites setec's source, from /repo's current working tree, into a
-// build overlay in which sync, os, math/rand, tailscale.com/atomicfile and
+// build overlay in which sync, os, math/rand, math/rand/v2, tailscale.com/atomicfile and
 // golang.org/x/sync/singleflight are replaced by instrumented mirrors, `go`
 // statements give their children deterministic identities and map iteration
 // order is owned by the explorer.  /repo itself is never modified.
@@ -33,6 +33,7 @@ var importSwap = map[string]string{
 	"sync":                           "verif/shim/vsync",
 	"os":                             "verif/shim/vos",
 	"math/rand":                      "verif/shim/vrand",
+	"math/rand/v2":                   "verif/shim/vrandv2",
 	"tailscale.com/atomicfile":       "verif/gen/vatomicfile",
 	"golang.org/x/sync/singleflight": "verif/gen/vsingleflight",
 }
@@ -211,7 +212,11 @@ func (rw *rewriter) run() {
 		if np, ok := importSwap[path]; ok {
 			if is.Name == nil {
 				// keep the identifier the file already uses
-				base := path[strings.LastIndex(path, "/")+1:]
+				elems := strings.Split(path, "/")
+				base := elems[len(elems)-1]
+				if len(elems) > 1 && len(base) > 1 && base[0] == 'v' && strings.Trim(base[1:], "0123456789") == "" {
+					base = elems[len(elems)-2] // major-version suffix: math/rand/v2 is package rand
+				}
 				is.Name = ast.NewIdent(base)
 			}
 			is.Path.Value = strconv.Quote(np)
